@@ -35,7 +35,11 @@ static int make_name(uint8_t *name, size_t *nl, const char *cn) { *nl = 0; retur
 /* returns 1; cert DER appended at *out */
 static int make_cert(const cert_spec *s, const SM2_KEY *subject_key, const SM2_KEY *issuer_key, const char *issuer_cn, uint8_t *out, size_t *outlen) {
 	uint8_t subj[128], iss[128], exts[512]; size_t sl, il, el = 0; const SM2_KEY *other; creds_init(); other = &CK[11];
-	if (make_name(subj, &sl, s->cn) != 1 || make_name(iss, &il, s->issuer_mismatch ? "ZZ" : issuer_cn) != 1) return -1;
+	if (make_name(subj, &sl, s->cn) != 1 || make_name(iss, &il, s->issuer_mismatch == 1 ? "ZZ" : issuer_cn) != 1) return -1;
+	/* near misses of the issuer name: 2 = the issuer's name plus one more RDN (OU=X) behind it, 3 = the issuer's name without its last RDN, 4 = last character of the CN changed */
+	if (s->issuer_mismatch == 2) { static const uint8_t extra[] = { 0x31, 0x0a, 0x30, 0x08, 0x06, 0x03, 0x55, 0x04, 0x0b, 0x13, 0x01, 0x58 }; memcpy(iss + il, extra, sizeof extra); il += sizeof extra; }
+	else if (s->issuer_mismatch == 3) { der_cur c = { iss, il }; size_t keep = 0; int tag; const uint8_t *v; size_t vl; while (c.n) { const uint8_t *st = c.p; if (!der_tlv(&c, &tag, &v, &vl, NULL)) break; if (c.n) keep = (size_t)(c.p - iss); (void)st; } if (keep) il = keep; }
+	else if (s->issuer_mismatch == 4) { iss[il - 1] ^= 0x01; }
 	if (s->bc && x509_exts_add_basic_constraints(exts, &el, sizeof exts, X509_critical, s->bc == 2, s->pathlen) != 1) return -2;
 	if (s->ku >= 0 && x509_exts_add_key_usage(exts, &el, sizeof exts, s->ku_crit ? X509_critical : X509_non_critical, s->ku) != 1) return -3;
 	if (s->eku) { int kp[2]; size_t n = 1; kp[0] = s->eku == 1 ? OID_kp_server_auth : s->eku == 2 ? OID_kp_client_auth : s->eku == 3 ? OID_any_extended_key_usage : OID_kp_server_auth; if (s->eku == 4) { kp[1] = OID_kp_client_auth; n = 2; } if (x509_exts_add_ext_key_usage(exts, &el, sizeof exts, X509_non_critical, kp, n) != 1) return -4; }
